@@ -321,7 +321,7 @@ def run_a(prop, tier, seed, items):
                 relevant_sigs.add(signature(it, h))
             d = compare(prop, it, h, m)
             if d is not None:
-                d.update(config=cfg, stream=stream, source=it.rust(), sexp=it.sexp())
+                d.update(config=cfg, stream=stream, source=it.rust(), sexp=it.sexp(), item=it)
                 out['disagreements'].append(d)
         out['per_config'][cfg] = dict(items=len(items), relevant=nrel, seconds=round(dt, 1))
     if spec.get('cross_config') and len(by_cfg) > 1:
